@@ -272,6 +272,11 @@ QVector<QXmppUploadService> QXmppUploadRequestManager::uploadServices() const
 
 bool QXmppUploadRequestManager::handleStanza(const QDomElement &element)
 {
+    // only responses are handled here, requests must get the default error reply
+    if (const auto type = element.attribute(u"type"_s); type == u"get" || type == u"set") {
+        return false;
+    }
+
     if (QXmppHttpUploadSlotIq::isHttpUploadSlotIq(element)) {
         QXmppHttpUploadSlotIq slot;
         slot.parse(element);
